@@ -14,9 +14,18 @@ Tie to /repo, every run:
      Besides random texts, a seed-independent grid: runs of 1..6 backslashes x every continuation a compiler gives a
      meaning to (`u002a/`, `u000a`, `uuu002a/`, a malformed escape, end of line [+ white space], `*/`, `"`) x position,
      for the comment filter of every generator and for the deprecation builders.
+     Two further seed-independent grids: every invisible / later-removable character (`INVISIBLE`: U+FEFF, zero-width and
+     bidi format characters, soft hyphen, NUL and other C0/C1 controls, DEL, non-characters, lone CR) *between the two halves*
+     of every sequence the filter neutralises or the escaper escapes (`*`|`/`, backslash|`u002a/`, backslash|end of line, backslash|`"` …), alone,
+     doubled and paired; and length as a dimension of its own: 7 … 1000 occurrences (around every power of two) of what has
+     to be neutralised / escaped, as runs, separated by words, one per line, at the very end.
+     Every text goes through the real `FileReaderWriter` into a file; the specification `S` is evaluated on the *bytes of
+     that file* (model: `Gen.Comment.written` = the rendered text).
   K2 file level: a closed-world program generated for all targets without comments and with adversarial comments
      on every commentable construct (incl. the rotation programs: every construct of the full program carries every
-     IDL spelling of a backslash run 1..6 before `u002a/` / `u000a`, in ordinary text and in code spans); token streams (own tokenizer `ctok12`, cross-checked against the Lean fragment)
+     IDL spelling of a backslash run 1..6 before `u002a/` / `u000a`, in ordinary text and in code spans; the `split` programs:
+     every construct carries every (invisible character x split sequence) line; the `length` programs: every construct is
+     deprecated with a message of the length grid); the files are read back from disk as bytes; token streams (own tokenizer `ctok12`, cross-checked against the Lean fragment)
      must be equal after dropping comments and deprecation annotations; every deprecation literal decodes to a message
      of the AST. Compilers as judges: g++ -fsyntax-only / javac on the commented variant (corpus witnesses + 2 programs in
      the quick tier, 40 in the thorough tier); g++ -E / javac as judges of the lexing fragment itself (every run).
@@ -64,6 +73,15 @@ THEOREMS = [
     "Pydjinni.C12.old_indent_line_break_counterexample",
     "Pydjinni.C12.old_deprecated_backslash_counterexample",
     "Pydjinni.C12.old_deprecated_quote_counterexample",
+    "Pydjinni.C12.written_block_comment_lexC",
+    "Pydjinni.C12.written_line_comment_lexC",
+    "Pydjinni.C12.erase_before_filter_contained",
+    "Pydjinni.C12.erase_after_filter_block_counterexample",
+    "Pydjinni.C12.erase_after_filter_line_counterexample",
+    "Pydjinni.C12.erase_after_filter_java_counterexample",
+    "Pydjinni.C12.escDepN_enough",
+    "Pydjinni.C12.limited_escape_wellformed",
+    "Pydjinni.C12.limited_escape_counterexample",
 ]
 LEVEL = "proof"
 TRUSTED = (
@@ -90,16 +108,53 @@ NO_IDL = {"\n", "\\\n", "\\ \n", "*\\\n/", "\0"}
 CR_PIECES = ["\r", "\r\n", "x\ry"]
 
 
+# Characters that a human reader does not see and that a *later stage* (a writer that "cleans" the rendered file, an editor,
+# a transport) may delete or a compiler may skip: byte order mark / zero width no-break space, zero width and bidirectional
+# format characters, soft hyphen, variation selector, combining grapheme joiner, NUL and other C0 controls, DEL, C1 controls,
+# non-characters — and a lone CR. Standing *between the two halves* of a sequence the comment filter neutralises
+# (`*`|`/`, `\`|`u`, `\`|end of line) or `string_literal` escapes (`\`|`"`), they must keep the halves apart all the way
+# to the bytes on disk.
+INVISIBLE = ["\ufeff", "\u200b", "\u200c", "\u200d", "\u200e", "\u200f", "\u2060", "\u2061", "\xad", "\u034f", "\u061c", "\u180e",
+             "\u202a", "\u202e", "\u2066", "\u2069", "\ufe0f", "\ufffe", "\uffff", "\0", "\x01", "\x07", "\x08", "\x0e", "\x1a", "\x1b", "\x7f",
+             "\x80", "\x9f", "\r"]
+# ... of which an IDL comment line can carry all but CR (lexer rule '#' ~[\r\n]*)
+IDL_INVISIBLE = [z for z in INVISIBLE if z != "\r"]
+# (first half, second half, what follows) of every sequence that is given a meaning before / while a comment is recognised
+SPLIT_COMMENT = [("*", "/", " int injected; /*"), ("\\", "u002a/", " int injected; /*"), ("\\", "u000a", " int injected;"),
+                 ("\\u002a\\", "u002f", " int injected; /*"), ("\\", "", ""), ("\\", " \t", ""), ("/", "*", " x"), ("\\", "\n", "next line")]
+SPLIT_MESSAGE = [("\\", '"', ");int injected;("), ("\\", "", ""), ("\\", "\\", '"'), ("\\", "n", ""), ("\\", "u0022", " + x"), ('"', '"', "")]
+
+
+def split_piece(r: random.Random, idl: bool) -> str:
+    a, b, tail = r.choice(SPLIT_COMMENT[:4] + [("\\", '"', "")])
+    z = r.choice(IDL_INVISIBLE if idl else INVISIBLE)
+    return a + z * r.choice([1, 1, 2]) + b + tail
+
+
+def repeat_piece(r: random.Random) -> str:
+    """length as a dimension of its own: many occurrences of one thing the filter / the escaper has to treat"""
+    unit = r.choice(["*/", "\\u002a/", '"', "\\", '\\"', '", "', "\\u", "*/ x ", "d\\", "\u2028", "\x1d"])
+    return unit * r.choice([15, 16, 17, 18, 31, 32, 33, 64, 65, 100, 129])
+
+
 def text(r: random.Random, cr: bool = False, maxlen: int = 9) -> str:
-    n = r.choice([0, 1, 1, 2, 3, 4, 6, maxlen])
-    pool = PIECES + (CR_PIECES if cr else [])
-    return "".join(r.choice(pool) for _ in range(n))
+    n = r.choice([0, 1, 1, 2, 3, 4, 6, maxlen, maxlen, 20, 40])
+    pool = PIECES + INVISIBLE[:8] + (CR_PIECES if cr else [])
+    out = []
+    for _ in range(n):
+        k = r.random()
+        out.append(split_piece(r, idl=False) if k < 0.06 else repeat_piece(r) if k < 0.075 else r.choice(pool))
+    return "".join(out)
 
 
 def idl_line(r: random.Random) -> str:
-    n = r.choice([1, 1, 2, 3, 5, 7])
-    s = "".join(r.choice([p for p in PIECES if p not in NO_IDL]) for _ in range(n))
-    return s.replace("\n", " ").replace("\r", " ")
+    n = r.choice([1, 1, 2, 3, 5, 7, 12])
+    pool = [p for p in PIECES if p not in NO_IDL] + IDL_INVISIBLE[:8]
+    out = []
+    for _ in range(n):
+        k = r.random()
+        out.append(split_piece(r, idl=True) if k < 0.08 else repeat_piece(r) if k < 0.1 else r.choice(pool))
+    return "".join(out).replace("\n", " ").replace("\r", " ")
 
 
 BS = "\\"
@@ -120,6 +175,84 @@ def run_grid_comments():
 
 def run_grid_messages():
     return [pre + BS * m + a for m in RUN_LENGTHS for a in AFTER_RUN_MESSAGE for pre in ("", "use ")]
+
+
+def split_grid_comments():
+    """every invisible character between the halves of every sequence x position in the text (seed-independent); also two of
+    them, and two different ones"""
+    out = []
+    for k, z in enumerate(INVISIBLE):
+        z2 = INVISIBLE[(k + 7) % len(INVISIBLE)]
+        for a, b, tail in SPLIT_COMMENT:
+            for pre, post in RUN_CONTEXTS:
+                out.append(pre + a + z + b + tail + post)
+            out.append("x " + a + z + z + b + tail)
+            out.append("x " + a + z + z2 + b + tail + "\nlast " + a + z2)
+    return out
+
+
+def split_grid_messages():
+    out = []
+    for k, z in enumerate(INVISIBLE):
+        z2 = INVISIBLE[(k + 7) % len(INVISIBLE)]
+        for a, b, tail in SPLIT_MESSAGE:
+            out += ["use " + a + z + b + tail, a + z + z2 + b + tail + a + z]
+    return out
+
+
+# _STRING_LITERAL_ESCAPES' keys, the two that matter most first
+ESCAPABLE = ["\\", '"', "\n", "\r", "\x0b", "\x0c", "\x1c", "\x1d", "\x1e", "\x85", "\u2028", "\u2029"]
+
+
+def counts(quick: bool):
+    """how many times: around every power of two up to 256 (a `count`/buffer limit is a small power of two or near it), 100, 1000"""
+    if quick:
+        return [7, 8, 9, 15, 16, 17, 18, 31, 32, 33, 63, 64, 65, 100, 128, 129, 256, 257, 1000]
+    return sorted(set(range(1, 70)) | {2 ** k + d for k in range(6, 13) for d in (-1, 0, 1)} | {100, 1000, 3000})
+
+
+def length_grid_messages(quick: bool):
+    """deprecation messages with n characters that need an escape sequence: runs, separated by words, at the very end, quoted
+    words, a path, all escapable characters in turn, and the n-th one followed by code"""
+    out = []
+    for j, n in enumerate(counts(quick)):
+        c = ESCAPABLE[2 + j % (len(ESCAPABLE) - 2)]
+        out += ['"' * n, BS * n, c * n, ('"' + BS) * (n // 2) + '"' * (n % 2),
+                " ".join("w" + '"' for _ in range(n)), "plain words first " * 3 + BS * n,
+                "use " + ", ".join('"%s"' % chr(97 + i % 26) for i in range(n // 2)) + (' or "' if n % 2 else ""),
+                "see C:" + "".join(BS + "d%d" % i for i in range(n - 1)) + BS,
+                "".join(ESCAPABLE[i % len(ESCAPABLE)] for i in range(n)),
+                ("q" + '"') * (n - 1) + '");int injected;("',
+                "a" * n + '"', "a" * (40 * n if n <= 100 else n) + BS]
+    return out
+
+
+def length_grid_comments(quick: bool):
+    """comment texts with n occurrences of what the filter neutralises: on one line, one per line, at the ends of n lines"""
+    out = []
+    for n in [c for c in counts(quick) if c <= (300 if quick else 1100)]:
+        out += ["*/" * n, "*/ x " * n, (BS + "u002a/ ") * n, (BS + "u") * n + "002a/", "a " + BS + "\n" * n, ("a" + BS + " \n") * n,
+                "*/\n" * n, ("w " * n) + "*/ int injected; /*", ("line\n" * n) + "ends " + BS, "*" * n + "/", BS * n + "u002a/", BS * n]
+    return out
+
+
+def idl_split_variants():
+    """IDL documentation lines with an invisible character between the halves (three lines per character: block closer, unicode
+    escape, backslash at the end of the line) — the rotation puts them in this order, so that a window of 3k lines ends in a
+    line-ending backslash"""
+    out = []
+    for k, z in enumerate(IDL_INVISIBLE):
+        out.append("x *" + z + "/ int injected; /*" if k % 2 else "code `*" + z + "/ int injected; /*` span")
+        out.append("y " + BS + z + "u002a/ int injected; /*" if k % 3 else "y " + BS + "u002a" + BS + z + "u002f int injected; /*")
+        out.append("tail " + BS + z)
+    return out
+
+
+def idl_length_variants(quick: bool):
+    """IDL deprecation messages / documentation lines with many characters to escape resp. many sequences to neutralise"""
+    msgs = [m for m in length_grid_messages(quick) if not any(c in m for c in "\n\r") and len(m) < 1500]
+    docs = [d for d in length_grid_comments(quick) if not any(c in d for c in "\n\r") and len(d) < 1500]
+    return msgs, docs
 
 
 def idl_run_variants():
@@ -320,6 +453,25 @@ def real_deprecated(target: str, dep, pre: str, post: str) -> str:
     raise ValueError(target)
 
 
+def through_writer(ctx, contents: list[str]) -> list[str]:
+    """Every text goes through the real `FileReaderWriter` (the one place through which generated files reach the disk, by
+    its two entry points in turn) into a file of its own; returned is what the *bytes of that file* say — read without
+    newline translation, the way a compiler reads them."""
+    from pydjinni.file.file_reader_writer import FileReaderWriter
+    d = ctx.tmp / "disk"
+    shutil.rmtree(d, ignore_errors=True)
+    d.mkdir(parents=True)
+    writer = FileReaderWriter()
+    out = []
+    for k, content in enumerate(contents):
+        f = d / f"d{k // 500}" / f"f{k}.txt"
+        (writer.write_header if k % 2 else writer.write_source)(key="cpp", filename=f, content=content, append=False)
+        out.append(f.read_bytes().decode("utf-8", errors="surrogateescape"))
+    shutil.rmtree(d, ignore_errors=True)
+    ctx.stats["texts_through_file_writer"] = ctx.stats.get("texts_through_file_writer", 0) + len(contents)
+    return out
+
+
 def function_level(ctx, gens, corpus):
     breaks = []
     n = ctx.n(260, 6000)
@@ -337,6 +489,13 @@ def function_level(ctx, gens, corpus):
     for k, t in enumerate(run_grid_messages()):
         for tg in ("cpp", "objc", "cppcli"):
             cases.append(("deprecated", tg, t, ["", " "][k % 2], " "))
+    # an invisible / later-removed character between the halves of every sequence; length as a dimension
+    for k, t in enumerate(split_grid_comments() + length_grid_comments(ctx.quick)):
+        for g in (gens if not ctx.quick else [x for x in gens if x.key in ("cpp", "java", "objc")] + [gens[k % len(gens)]]):
+            cases.append(("filter", g, t, [None, 4][k % 2]))
+    for k, t in enumerate(split_grid_messages() + length_grid_messages(ctx.quick)):
+        for tg in ("cpp", "objc", "cppcli"):
+            cases.append(("deprecated", tg, t, ["", " "][k % 2], " "))
     for i in range(n):
         r = random.Random(f"{ctx.seed}/c12/f/{i}")
         t = text(r, cr=True)
@@ -350,19 +509,32 @@ def function_level(ctx, gens, corpus):
         dep = r.choice([False, True, "", "x"]) if i % 10 == 0 else text(r, cr=True)
         cases.append(("deprecated", ["cpp", "objc", "cppcli"][i % 3], dep, r.choice(["", " "]), r.choice(["", " "])))
 
-    reqs, metas = [], []
+    # what the filters / builders return ...
+    outs = []
     for c in cases:
         if c[0] == "filter":
             _, g, t, ind = c
             out = g._jinja_env.filters["comment"](t)
             if ind is not None:
                 out = g._jinja_env.filters["indent"](out, ind)
+        else:
+            _, target, dep, pre, post = c
+            out = real_deprecated(target, dep, *((pre, post) if target == "cpp" else ("", "")))
+        outs.append(out)
+    # ... and what the real file writer puts on disk for it: the specification is evaluated on the *bytes of the file*
+    disks = through_writer(ctx, outs)
+    reqs, metas = [], []
+    ondisk = {}
+    for k, (c, rendered, out) in enumerate(zip(cases, outs, disks)):
+        ondisk[id(c)] = (k % 2, rendered, out)
+        if c[0] == "filter":
+            _, g, t, ind = c
             st = style_name(g)
             rq = {"op": "c12.filter", "style": st, "text": t}
             if ind is not None:
                 rq["indent"] = ind
             reqs.append(rq)
-            metas.append(("filter.model", c, out))
+            metas.append(("filter.model", c, rendered))
             langs = ["c"] if g.key != "java" else ["java"]
             if g.key == "yaml":
                 langs = []
@@ -374,9 +546,8 @@ def function_level(ctx, gens, corpus):
             _, target, dep, pre, post = c
             if target != "cpp":
                 pre, post = "", ""
-            out = real_deprecated(target, dep, pre, post)
             reqs.append({"op": "c12.deprecated", "target": target, "dep": dep, "pre": pre, "post": post})
-            metas.append(("dep.model", c, out))
+            metas.append(("dep.model", c, rendered))
             reqs.append({"op": "c12.spec.deprecated", "target": target, "dep": dep, "out": out, "pre": pre, "post": post})
             metas.append(("dep.spec", c, out))
     answers = ctx.driver.batch(reqs)
@@ -387,32 +558,38 @@ def function_level(ctx, gens, corpus):
         if kind == "filter.model":
             _, g, t, ind = c
             ctx.count(key=("filter", style_name(g), ind is not None, shape_of(t)), nontrivial=bool(t),
-                      sample={"generator": g.key, "text": t, "indent": ind, "out": out})
+                      sample={"generator": g.key, "text": t[:300], "indent": ind, "out": out[:400]})
             ctx.stat("filter_" + g.key)
             if a["out"] != out:
                 breaks.append({"what": "comment_filter", "generator": g.key, "text": t, "indent": ind, "impl": out, "model": a["out"]})
+            elif a["disk"] != ondisk[id(c)][2]:
+                breaks.append({"what": "file writer (Gen.Comment.written)", "generator": g.key, "text": t, "indent": ind, "rendered": out,
+                               "on_disk": ondisk[id(c)][2], "model": a["disk"]})
         elif kind == "filter.spec":
             _, g, t, ind = c
             if not a["holds"]:
                 report(ctx, f"comment:{style_name(g)}:{m[3]}:{cause_of(t, style_name(g), m[3], ind)}",
                            "comment text escapes the generated documentation comment",
-                           {"input": {"kind": "filter", "generator": g.key, "text": t, "indent": ind, "probe": m[4], "lang": m[3]},
-                            "impl_output": out, "tokens": a.get("tokens")})
+                           {"input": {"kind": "filter", "generator": g.key, "text": t, "indent": ind, "probe": m[4], "lang": m[3], "entry": ondisk[id(c)][0]},
+                            "rendered": ondisk[id(c)][1], "impl_output": out, "written_verbatim": ondisk[id(c)][1] == out, "tokens": a.get("tokens")})
         elif kind == "dep.model":
             _, target, dep, pre, post = c
             ctx.count(key=("dep", target, type(dep).__name__, shape_of(dep) if isinstance(dep, str) else ""),
-                      nontrivial=isinstance(dep, str), sample={"target": target, "deprecated": dep, "out": out})
+                      nontrivial=isinstance(dep, str), sample={"target": target, "deprecated": dep[:300] if isinstance(dep, str) else dep, "out": out[:400]})
             ctx.stat("deprecated_" + target)
             if a["out"] != out:
                 breaks.append({"what": "deprecated builder", "target": target, "dep": dep, "impl": out, "model": a["out"]})
+            elif a["disk"] != ondisk[id(c)][2]:
+                breaks.append({"what": "file writer (Gen.Comment.written)", "target": target, "dep": dep, "rendered": out,
+                               "on_disk": ondisk[id(c)][2], "model": a["disk"]})
         elif kind == "dep.spec":
             _, target, dep, pre, post = c
             if not a["holds"]:
                 report(ctx, f"deprecated:{target}:{dep_cause(dep)}",
                            "deprecation message does not stay one well-formed string literal that decodes to the message",
                            {"input": {"kind": "deprecated", "target": target, "dep": dep, "pre": pre if target == "cpp" else "",
-                                      "post": post if target == "cpp" else ""},
-                            "impl_output": out, "spec": a})
+                                      "post": post if target == "cpp" else "", "entry": ondisk[id(c)][0]},
+                            "rendered": ondisk[id(c)][1], "impl_output": out, "written_verbatim": ondisk[id(c)][1] == out, "spec": a})
     return breaks
 
 
@@ -420,14 +597,45 @@ def shape_of(t: str) -> str:
     """which adversarial features a text has (coverage key)"""
     feats = []
     for name, pat in (("closer", r"\*/"), ("bs-eol", r"\\[ \t\x0b\x0c]*(\n|$)"), ("bs-u", r"\\u"), ("quote", '"'), ("nl", "\n"),
-                      ("cr", "\r"), ("brk", "[\x0b\x0c\x1c-\x1e\x85\u2028\u2029]"), ("bs", r"\\"), ("md", r"[`*\[>#-]"), ("cmd", r"[@\\](param|deprecated|returns|throws)")):
+                      ("cr", "\r"), ("brk", "[\x0b\x0c\x1c-\x1e\x85\u2028\u2029]"), ("bs", r"\\"), ("md", r"[`*\[>#-]"), ("cmd", r"[@\\](param|deprecated|returns|throws)"),
+                      ("invisible", _INVISIBLE_RE.pattern)):
         if re.search(pat, t):
             feats.append(name)
+    # a sequence that exists only once the invisible characters are taken out; length classes of what has to be escaped
+    e = erased(t)
+    if e != t and (("*/" in e and "*/" not in t) or (re.search(r"\\u", e) and not re.search(r"\\u", t)) or
+                   (re.search(r"\\\s*$", e, flags=re.M) and not re.search(r"\\\s*$", t, flags=re.M)) or ('\\"' in e and '\\"' not in t)):
+        feats.append("split")
+    n = len(re.findall(r'\*/|\\|"|\n', t))
+    if n > 8:
+        feats.append("x%d" % (1 << (n - 1).bit_length()))
     return "+".join(feats)
 
 
+_INVISIBLE_RE = re.compile("[" + "".join(re.escape(z) for z in INVISIBLE) + "]")
+
+
+def erased(t: str) -> str:
+    return _INVISIBLE_RE.sub("", t)
+
+
+def long_class(t: str, pat: str) -> str:
+    """length class of a text: how often the pattern occurs (shape signatures stay stable under the exact number)"""
+    n = len(re.findall(pat, t))
+    return "" if n <= 8 else ":many"
+
+
 def cause_of(t: str, style: str, lang: str, ind) -> str:
-    """shape signature of a comment that escapes: the first feature (in a fixed order) that is known to matter"""
+    """shape signature of a comment that escapes: the first feature (in a fixed order) that is known to matter; if none is
+    there, the first that is there once the invisible characters are taken out (`split-…`)"""
+    c = cause_of1(t, style, lang, ind)
+    if c == "other" and erased(t) != t:
+        c2 = cause_of1(erased(t), style, lang, ind)
+        return "split-" + c2 if c2 != "other" else "other"
+    return c + (long_class(t, r"\*/|\\u|\\\s*$|\n") if c != "other" else "")
+
+
+def cause_of1(t: str, style: str, lang: str, ind) -> str:
     if lang == "java" and re.search(r"\\u", t):
         return "backslash-u"
     if style == "block" and "*/" in t:
@@ -442,10 +650,15 @@ def cause_of(t: str, style: str, lang: str, ind) -> str:
 
 
 def dep_cause(dep) -> str:
-    if isinstance(dep, str) and "\\" in dep:
-        return "backslash"
-    if isinstance(dep, str) and re.search("[\r\x0b\x0c\x1c-\x1e\x85\u2028\u2029]", dep):
-        return "line-break-character"
+    if not isinstance(dep, str):
+        return "other"
+    many = long_class(dep, "[" + "".join(re.escape(c) for c in ESCAPABLE) + "]")
+    if "\\" in dep:
+        return "backslash" + many
+    if re.search("[\n\r\x0b\x0c\x1c-\x1e\x85\u2028\u2029]", dep):
+        return "line-break-character" + many
+    if '"' in dep:
+        return "quote" + many
     return "other"
 
 
@@ -467,6 +680,7 @@ DECLS = [
     ("r2", ["r"], "namespace ns {\n{C}    r2 = record {\n{C1}        inner: r;\n{C2}        o: i32?;\n    }\n}\n"),
 ]
 PARAMS = {"err": ["code", "flag"], "i": ["a", "b", "q"], "j": ["v", "w"]}
+NSLOTS = sum(1 for _, _, tmpl in DECLS for slot in ("{C}", "{C1}", "{C2}", "{C3}", "{C4}") if slot in tmpl)   # commentable constructs
 
 
 def comment_block(r: random.Random, indent: str, owner: str, adversarial: bool) -> str:
@@ -515,14 +729,18 @@ def program(r: random.Random, mode: str) -> tuple[str, str]:
     return "".join(bare), "".join(commented)
 
 
-def rotation_programs(nprog: int):
+def rotation_programs(nprog: int, variants=None, per=None, tagtexts=None, always_deprecated=False, first=0, stride=1):
     """The full closed-world program (every declaration of `DECLS`), every commentable construct commented; over the
-    `nprog` programs every construct carries every line of `idl_run_variants()` once (36 / nprog lines per comment), plus
-    a rotating tag line (@deprecated / @param / @returns / @throws) with such a text. Seed-independent."""
-    variants = idl_run_variants()
-    per = max(1, len(variants) // nprog)
+    `nprog` programs every construct carries every line of `variants` (default `idl_run_variants()`) once (`per` = 36 / nprog
+    lines per comment), plus a rotating tag line (@deprecated / @param / @returns / @throws; `always_deprecated`: @deprecated
+    on every construct, each message of `tagtexts` once per `len(tagtexts) / NSLOTS` programs) with such a text (or one of `tagtexts`).
+    The window of construct number `i` in program `k` starts at line `i * stride + k * per`. Seed-independent (`first` = number of
+    the first program)."""
+    variants = variants or idl_run_variants()
+    tagtexts = tagtexts or variants
+    per = per or max(1, len(variants) // nprog)
     out = []
-    for k in range(nprog):
+    for k in range(first, first + nprog):
         bare, commented, sidx = [], [], 0
         for name, deps, tmpl in DECLS:
             b = c = tmpl
@@ -531,9 +749,9 @@ def rotation_programs(nprog: int):
                     continue
                 m = re.search(r"^" + re.escape(slot) + r"( *)", c, flags=re.M)
                 indent = m.group(1) if m else ""
-                lines = [variants[(sidx + k * per + j) % len(variants)] for j in range(per)]
-                tagtext = variants[(sidx + 7 * k + 3) % len(variants)]
-                tag = (sidx + k) % 5
+                lines = [variants[(sidx * stride + k * per + j) % len(variants)] for j in range(per)]
+                tagtext = tagtexts[(sidx + k * NSLOTS) % len(tagtexts)] if always_deprecated else tagtexts[(sidx + 7 * k + 3) % len(tagtexts)]
+                tag = 0 if always_deprecated else (sidx + k) % 5
                 if tag == 0:
                     lines.append("@deprecated " + tagtext)
                 elif tag == 1 and name in PARAMS:
@@ -576,6 +794,24 @@ def skeleton(path: str, textv: str):
     return sk, msgs, problems
 
 
+def hook_raw(job, gctx, jobdir):
+    """observer inside the generating worker: the generated files whose *bytes* differ from what a reader with universal
+    newlines sees (a CR on disk) — decoded without newline translation, the way a compiler reads them"""
+    out = {}
+    root = Path(jobdir) / job.get("out_dir", "out")
+    for f in sorted(root.rglob("*")) if root.exists() else []:
+        if f.is_file() and ("pydjinni" not in f.relative_to(root).parts[1:] or f.suffix == ".java"):
+            raw = f.read_bytes()
+            if b"\r" in raw:
+                out[str(f.relative_to(root))] = raw.decode("utf-8", errors="surrogateescape")
+    return out
+
+
+def on_disk(res) -> dict:
+    """{path: text} of a generation result, byte-exact"""
+    return {**res["files"], **(res.get("extra") or {})}
+
+
 def file_level(ctx, corpus):
     breaks = []
     n = ctx.n(26, 400)
@@ -586,10 +822,22 @@ def file_level(ctx, corpus):
             jobs.append({"files": {"main.djinni": c["commented"]}, "root": "main.djinni", "want": ["dep"]})
             metas.append({"mode": "corpus", "bare": c["bare"], "commented": c["commented"], "judge": bool(c.get("judge"))})
     if n:
-        for bare, commented in rotation_programs(ctx.n(12, 36)):
-            jobs.append({"files": {"main.djinni": bare}, "root": "main.djinni"})
-            jobs.append({"files": {"main.djinni": commented}, "root": "main.djinni", "want": ["dep"]})
-            metas.append({"mode": "runs", "bare": bare, "commented": commented})
+        families = [("runs", rotation_programs(ctx.n(12, 36)))]
+        # every construct carries every (invisible character x split sequence) line: windows of 3k lines, aligned to the triples
+        sv = idl_split_variants()
+        per = ctx.n(18, 6)
+        families.append(("split", rotation_programs(-(-len(sv) // per), variants=sv, per=per, stride=3)))
+        # every construct is deprecated with a message of the length grid and documented with a line of the length grid
+        msgs, docs = idl_length_variants(ctx.quick)
+        random.Random("c12/length").shuffle(msgs)
+        nlen = ctx.n(4, -(-len(msgs) // NSLOTS))
+        families.append(("length", rotation_programs(nlen, variants=docs, per=1, tagtexts=msgs, always_deprecated=True, stride=5,
+                                                     first=(ctx.seed * nlen) % max(1, -(-len(msgs) // NSLOTS)))))
+        for mode, progs in families:
+            for bare, commented in progs:
+                jobs.append({"files": {"main.djinni": bare}, "root": "main.djinni"})
+                jobs.append({"files": {"main.djinni": commented}, "root": "main.djinni", "want": ["dep"]})
+                metas.append({"mode": mode, "bare": bare, "commented": commented})
     for i in range(n):
         r = random.Random(f"{ctx.seed}/c12/p/{i}")
         mode = "plain" if i % 4 == 0 else "adv"
@@ -597,6 +845,8 @@ def file_level(ctx, corpus):
         jobs.append({"files": {"main.djinni": bare}, "root": "main.djinni"})
         jobs.append({"files": {"main.djinni": commented}, "root": "main.djinni", "want": ["dep"]})
         metas.append({"mode": mode, "bare": bare, "commented": commented})
+    for j in jobs:
+        j["hook"] = "props.c12:hook_raw"
     # identical inputs (the comment-free variant of the rotation programs) are generated once
     uniq, index = [], {}
     for j in jobs:
@@ -618,7 +868,7 @@ def file_level(ctx, corpus):
             report(ctx, "program:generation-fails:" + r1["stage"] + ":" + r1["cls"],
                        "adding comments makes generation fail", {"input": inp, "impl": r1})
             continue
-        f0, f1 = r0["files"], r1["files"]
+        f0, f1 = on_disk(r0), on_disk(r1)
         if set(f0) != set(f1):
             ctx.report("program:file-set", "adding comments changes the set of generated files",
                        {"input": inp, "only_bare": sorted(set(f0) - set(f1)), "only_commented": sorted(set(f1) - set(f0))})
@@ -682,15 +932,22 @@ def program_cause(idl: str, differing) -> str:
     if "decode" in whys or "malformed" in whys:
         return "deprecation-literal"
     comments = "\n".join(l.strip()[1:] for l in idl.split("\n") if l.strip().startswith("#"))
-    feats = []
-    if "*/" in comments:
-        feats.append("block-closer")
-    if re.search(r"\\u", comments):
-        feats.append("backslash-u")
-    if re.search(r"\\\s*$", comments, flags=re.M):
-        feats.append("line-ending-backslash")
-    if re.search("[\x0b\x0c\x1c-\x1e\x85\u2028\u2029]", comments):
-        feats.append("line-break-character")
+
+    def features(comments):
+        feats = []
+        if "*/" in comments:
+            feats.append("block-closer")
+        if re.search(r"\\u", comments):
+            feats.append("backslash-u")
+        if re.search(r"\\\s*$", comments, flags=re.M):
+            feats.append("line-ending-backslash")
+        if re.search("[\x0b\x0c\x1c-\x1e\x85\u2028\u2029]", comments):
+            feats.append("line-break-character")
+        return feats
+
+    feats = features(comments)
+    # sequences that exist only once the invisible characters are taken out
+    feats += ["split-" + f for f in features(erased(comments)) if f not in feats]
     return "|".join(feats) or "other"
 
 
@@ -749,15 +1006,22 @@ def validate_fragment(ctx):
     n = ctx.n(120, 1500)
     texts = []
     alphabet = ["/", "*", "\\", "\n", " ", "\t", '"', "a", "b", ";", "//", "/*", "*/", "\\\n", "\\ \n", "x", "'", "\r", "\x0c", "\\\r\n", "\\\r"]
+    # ... and characters a reader does not see: no compiler skips them between `*` and `/`, `\` and the end of the line
+    # (NUL is left out: g++ counts it as horizontal white space, clang does not — see the assumptions)
+    unseen = [z for z in INVISIBLE if z not in "\0\r"]
     for i in range(n):
         r = random.Random(f"{ctx.seed}/c12/v/{i}")
-        texts.append("".join(r.choice(alphabet) for _ in range(r.choice([2, 4, 6, 9, 14]))))
+        pool = alphabet + ([r.choice(unseen)] * 4 if i % 3 == 0 else [])
+        texts.append("".join(r.choice(pool) for _ in range(r.choice([2, 4, 6, 9, 14]))))
+    for k, z in enumerate(unseen):      # seed-independent: each of them between the halves, in a comment position
+        texts += ["/* a *" + z + "/ b; /* */ c;", "// a \\" + z + "\nb;"][k % 2: k % 2 + 1] if ctx.quick else ["/* a *" + z + "/ b; /* */ c;", "// a \\" + z + "\nb;"]
     ans = ctx.driver.batch([{"op": "c12.lex", "lang": "c", "text": t + "\n"} for t in texts])
     usable = []
     for t, a in zip(texts, ans):
         toks = a["tokens"]
         # g++ -E is only a judge for units that lex without error and without literals (it re-spells literals) and '#'
-        if "err" in toks or any(x.startswith(("str", "chr")) for x in toks):
+        # ... and has the unseen characters in comments only (in a code position g++ re-spells or rejects them)
+        if "err" in toks or any(x.startswith(("str", "chr")) or (x[0] == "c" and x[1:] in unseen) for x in toks):
             continue
         usable.append((t, toks))
     d = ctx.tmp / "frag"
@@ -775,7 +1039,8 @@ def validate_fragment(ctx):
         outs = list(ex.map(gpp, enumerate(usable)))
     for (t, toks), (rc, seen) in zip(usable, outs):
         code = "".join(x[1:] for x in toks if x.startswith("c") and x != "comment" and not x[1:].isspace())
-        gpp_code = re.sub(r"\s+", "", seen)
+        # g++ -E re-spells a character outside the basic set that stands in a code position as a universal character name
+        gpp_code = re.sub(r"\\U([0-9a-fA-F]{8})", lambda m: chr(int(m.group(1), 16)), re.sub(r"\s+", "", seen))
         ctx.stat("fragment_gpp")
         if rc != 0 or code != gpp_code:
             breaks.append({"what": "Lang/CLex vs g++ -E", "text": t, "lean_code": code, "gpp_code": gpp_code, "rc": rc})
@@ -784,7 +1049,12 @@ def validate_fragment(ctx):
     jt = []
     for i in range(m):
         r = random.Random(f"{ctx.seed}/c12/vj/{i}")
-        jt.append("".join(r.choice(["\\", "u", "\\u", "0041", "002a", "002f", "\\u002a\\u002f", "*", "/", " ", "x", "\\\\", "\n", "00", "zz"]) for _ in range(r.choice([1, 2, 3, 5, 7]))))
+        jt.append("".join(r.choice(["\\", "u", "\\u", "0041", "002a", "002f", "\\u002a\\u002f", "*", "/", " ", "x", "\\\\", "\n", "00", "zz"] + ([r.choice(IDL_INVISIBLE)] * 3 if i % 2 else []))
+                          for _ in range(r.choice([1, 2, 3, 5, 7]))))
+    for k, z in enumerate(IDL_INVISIBLE):
+        if not ctx.quick or k % 3 == ctx.seed % 3:
+            jt += ["a *" + z + "/ int injected; /*", "b \\" + z + "u002a/ int injected; /*"]
+    m = len(jt)
     pre, suf = "class K%d {\n", "\n int f; }\n"
     reqs = [{"op": "c12.spec.comment", "lang": "java", "pre": pre % k, "out": "/* " + t + " */", "suf": suf} for k, t in enumerate(jt)]
     ans = ctx.driver.batch(reqs)
@@ -815,13 +1085,16 @@ def load_corpus():
 def run(ctx):
     ctx.coverage["rule"] = ("function level: distinct = (style, indented?, set of adversarial features in the text) resp. (builder, value kind, features); "
                             "function level also: grid of backslash runs 1..6 x continuations (unicode escapes, line ends, closers, quotes) x position for every generator / builder; "
-                            "file level: distinct = (mode, targets with deprecation literals, features of the comments); 12 (36) rotation programs put every backslash-run spelling on every commentable construct; non-trivial = non-empty text / a program whose commented variant differs")
+                            "function level also: grid of 30 invisible / later-removable characters between the halves of every neutralised / escaped sequence; grid of lengths 7..1000 (thorough: 1..69, 2^k±1 up to 4096) x 12 shapes; every text is judged as the bytes the real file writer puts on disk; "
+                            "file level: distinct = (mode, targets with deprecation literals, features of the comments); 12 (36) rotation programs put every backslash-run spelling on every commentable construct, 5 (15) `split` programs every invisible-character line, 4 (all) `length` programs the length grid of deprecation messages; non-trivial = non-empty text / a program whose commented variant differs")
     ctx.assumptions += [
         "no assumption on the rendered comment text or the deprecation message: the theorems hold for every string (the comment filter splits at '\\r' and every other line boundary, string_literal escapes them)",
         "closed feature set of the file-level generator: the eight declarations of `DECLS` (enum, flags with none/all last, record of i32/string/list<i32>/enum, "
         "error domain with value parameters, named function, +cpp interface with static/const/throws methods, +java+objc+cppcli interface, namespaced record with optional field); "
         "default identifier styles; comments on every commentable construct",
-        "NUL characters in comments are outside the model (g++ treats NUL as horizontal white space)",
+        "NUL: the lexing fragment follows clang (NUL is an ordinary character inside a comment); g++ counts NUL as horizontal white space, so backslash NUL newline "
+        "is a line splice for g++ only — harmless inside the `/** */` comments of the C++ / JNI / Objective-C++ files; the `///` comments exist in Objective-C headers only",
+        "the file writer is compared as a function of the content (fresh file names): `written content = content`",
     ]
     corpus = load_corpus()
     gens = generators()
@@ -855,18 +1128,20 @@ def replay(ctx, body):
     gens = generators()
     if inp.get("kind") == "filter":
         g = next(x for x in gens if x.key == inp["generator"])
-        out = g._jinja_env.filters["comment"](inp["text"])
+        rendered = g._jinja_env.filters["comment"](inp["text"])
         if inp.get("indent") is not None:
-            out = g._jinja_env.filters["indent"](out, inp["indent"])
+            rendered = g._jinja_env.filters["indent"](rendered, inp["indent"])
+        out = through_writer(ctx, [rendered, rendered])[inp.get("entry", 0) % 2]
         pre, suf = PROBES[inp.get("probe", 0)]
         a = ctx.driver.one({"op": "c12.spec.comment", "lang": inp.get("lang", "c"), "pre": pre, "out": out, "suf": suf})
-        print(json.dumps({"impl_output": out, "spec": a}, indent=1)[:3000])
+        print(json.dumps({"rendered": rendered, "impl_output": out, "spec": a}, indent=1)[:3000])
         return bool(a["holds"])
     if inp.get("kind") == "deprecated":
-        out = real_deprecated(inp["target"], inp["dep"], inp.get("pre", ""), inp.get("post", ""))
+        rendered = real_deprecated(inp["target"], inp["dep"], inp.get("pre", ""), inp.get("post", ""))
+        out = through_writer(ctx, [rendered, rendered])[inp.get("entry", 0) % 2]
         a = ctx.driver.one({"op": "c12.spec.deprecated", "target": inp["target"], "dep": inp["dep"], "out": out,
                             "pre": inp.get("pre", ""), "post": inp.get("post", "")})
-        print(json.dumps({"impl_output": out, "spec": a}, indent=1)[:3000])
+        print(json.dumps({"rendered": rendered, "impl_output": out, "spec": a}, indent=1)[:3000])
         return bool(a["holds"])
     if inp.get("kind") == "program":
         n0 = len(ctx.violations)
